@@ -76,32 +76,54 @@ def observe(c, dynamic):
     o["index_obj"] = [_res(lambda p=p: int(g.get_cell_index(_Pos(*p)))) for p in tri]
     o["nbrs"] = [[int(v) for v in g.get_neighbors(i)] for i in range(n)]
     o["are"] = [[bool(g.are_neighbors(a, b)) for b in range(n)] for a in range(n)]
-    gg = grid_to_graph(g)
-    o["nodes"] = [[float(nd.volume.convert("µm3").value), int(nd.environment)] for nd in gg.nodes]
-    o["edges"] = [[int(e.i), int(e.j), float(e.surface.convert("µm2").value), float(e.distance.convert("µm").value)]
-                  for e in gg.edges]
+    try:
+        gg = grid_to_graph(g)
+        o["nodes"] = [[float(nd.volume.convert("µm3").value), int(nd.environment)] for nd in gg.nodes]
+        o["edges"] = [[int(e.i), int(e.j), float(e.surface.convert("µm2").value), float(e.distance.convert("µm").value)]
+                      for e in gg.edges]
+    except Exception as e:           # a conversion that raises yields no graph: never accepted
+        o["nodes"], o["edges"], o["grid_to_graph_raised"] = [], [], type(e).__name__
     o["kin"] = o["eng"] = o["kin_graph"] = o["eng_graph"] = None
-    if dynamic:
-        x = [8 ** i for i in range(n)]
-        env0 = [0] * n
-        s_grid = _system(strengths, w, h, d, per, 1.0, env0, x)
-        # a single cell has no neighbour at all: nothing to reveal (and kinetics.py has a separate
-        # defect there that belongs to C01, finding F12)
-        def probe(f):
-            try:
-                return f()
-            except Exception as e:      # a probe that raises is an observation, not a harness failure
-                return "raise:" + type(e).__name__
-        if n > 1:
-            o["kin"] = probe(lambda: [float(v) for v in kin.compute_dstatedt(s_grid, apply_chemostats=False).value])
-        o["eng"] = probe(lambda: _euler_rate(strengths, s_grid, x))
-        s_graph = _system(strengths, w, h, d, per, 1.0, env0, x, graph=True)
-        o["eng_graph"] = probe(lambda: _euler_rate(strengths, s_graph, x))
-        # the Python kinetics functions see a single edge between two nodes: the property restricts
-        # the grid/graph comparison for them to grids without a periodic axis of length 2
-        if n > 1 and not any(p and k == 2 for p, k in zip(per, (w, h, d))):
-            o["kin_graph"] = probe(lambda: [float(v) for v in kin.compute_dstatedt(s_graph, apply_chemostats=False).value])
     return o
+
+
+PROBES = ("kin", "eng", "eng_graph", "kin_graph")
+
+
+def wanted_probes(c):
+    w, h, d, per = c["w"], c["h"], c["d"], c["per"]
+    n = w * h * d
+    out = []
+    # a single cell has no neighbour at all: nothing to reveal (and kinetics.py has a separate defect there that belongs to C01, F12)
+    if n > 1:
+        out.append("kin")
+    out += ["eng", "eng_graph"]
+    # the Python kinetics functions see a single edge between two nodes: the property restricts the grid/graph comparison for
+    # them to grids without a periodic axis of length 2
+    if n > 1 and not any(p and k == 2 for p, k in zip(per, (w, h, d))):
+        out.append("kin_graph")
+    return out
+
+
+def observe_static(c):
+    return observe(c, False)
+
+
+def observe_probe(c):
+    """one dynamic observation (c["probe"]) in a process of its own: a crash of the engine on a malformed graph is an observation"""
+    import strengths
+    import strengths.kinetics as kin
+    w, h, d, per = c["w"], c["h"], c["d"], c["per"]
+    n = w * h * d
+    x = [8 ** i for i in range(n)]
+    which = c["probe"]
+    try:
+        sys_ = _system(strengths, w, h, d, per, 1.0, [0] * n, x, graph=which.endswith("_graph"))
+        if which.startswith("kin"):
+            return {"v": [float(v) for v in kin.compute_dstatedt(sys_, apply_chemostats=False).value]}
+        return {"v": _euler_rate(strengths, sys_, x)}
+    except Exception as e:      # a probe that raises is an observation, not a harness failure
+        return {"v": "raise:" + type(e).__name__}
 
 
 def _gres(r, f):
@@ -215,9 +237,17 @@ def gen_cases(rng, tier):
 def build_items(cases):
     from . import engine_build
     engine_build.build(False)
+    from . import child
+    statics = child.map_children("c15", "observe_static", cases, timeout=120)
+    jobs = [(k, pr) for k, c in enumerate(cases) if c.get("dynamic", False) for pr in wanted_probes(c)]
+    dyn = child.map_children("c15", "observe_probe", [dict(cases[k], probe=pr) for k, pr in jobs], timeout=60)
     items = []
-    for c in cases:
-        o = observe(c, c.get("dynamic", False))
+    for c, o in zip(cases, statics):
+        if "timeout" in o or "crash" in o or "error" in o:
+            raise RuntimeError("static observation failed: %r" % (o,))
+    for (k, pr), r in zip(jobs, dyn):
+        statics[k][pr] = r["v"] if "v" in r else "raise:" + ("timeout" if "timeout" in r else "crash" if "crash" in r else "error")
+    for c, o in zip(cases, statics):
         gc, go = emit(c, o)
         items.append({"case": c, "obs": o, "gcase": gc, "gobs": go})
     return items
